@@ -340,11 +340,11 @@ def parse_body(body, params):
             cur = (unq(mm.group(1)), []); blocks.append(cur); continue
         if cur is None:
             cur = (str(unnamed), []); blocks.append(cur)
-        if s.startswith('to label') or s.startswith('catch ') or s.startswith('cleanup') or s.startswith('filter ') or (s.startswith('i') and cur[1] and cur[1][-1]['op'] == 'switch' and not cur[1][-1].get('done')) or s == ']':
+        if s.startswith('to label') or s.startswith('catch ') or s.startswith('cleanup') or s.startswith('filter ') or (s.startswith('i') and cur[1] and cur[1][-1]['op'] == 'switch' and not cur[1][-1].get('done')) or s == ']' or s.startswith('], !'):
             # continuation lines
             ins = cur[1][-1]
             ins['cont'].append(s)
-            if s == ']': ins['done'] = True
+            if s == ']' or s.startswith('], !'): s = ']'; ins['cont'][-1] = ']'; ins['done'] = True
             continue
         cur[1].append(dict(raw=s, cont=[], op=None))
         # determine op quickly
@@ -364,6 +364,7 @@ CCONV = {'ccc','fastcc','coldcc'}
 def parse_instr(x):
     s = x['raw']
     if x['cont']: s = s + ' ' + ' '.join(x['cont'])
+    s = re.sub(r'(,\s*![A-Za-z_.][A-Za-z_.0-9]*\s+![0-9]+)+\s*$', '', s)      # metadata attachments carry no semantics here
     p = P(tokenize(s))
     x['dst'] = None
     if p.peek()[0] in ('name', 'qname') and p.peek(1)[1] == '=':
